@@ -229,9 +229,13 @@ pub enum Problem {
     Growing,
     /// y_i' = cos(10 t + i) (oscillatory, state independent)
     Oscillating,
+    /// y_i' = exp(y_i): finite-time blow-up; trial stages overflow to non-finite states
+    BlowUp,
+    /// y_i' = -1000 y_i^3: explicit start-up steps of usual length are unstable and overflow
+    StiffCubic,
 }
 
-pub const PROBLEMS: [Problem; 8] = [
+pub const PROBLEMS: [Problem; 10] = [
     Problem::Zero,
     Problem::Linear,
     Problem::Rotation,
@@ -240,6 +244,8 @@ pub const PROBLEMS: [Problem; 8] = [
     Problem::Quadratic,
     Problem::Growing,
     Problem::Oscillating,
+    Problem::BlowUp,
+    Problem::StiffCubic,
 ];
 
 impl Problem {
@@ -253,7 +259,13 @@ impl Problem {
             Problem::Quadratic => "quadratic",
             Problem::Growing => "growing",
             Problem::Oscillating => "oscillating",
+            Problem::BlowUp => "blow_up",
+            Problem::StiffCubic => "stiff_cubic",
         }
+    }
+    /// Problems on which solvers are expected to reach non-finite states.
+    pub fn overflows(self) -> bool {
+        matches!(self, Problem::BlowUp | Problem::StiffCubic)
     }
     pub fn from_name(s: &str) -> Option<Problem> {
         PROBLEMS.iter().copied().find(|p| p.name() == s)
@@ -276,11 +288,23 @@ pub enum FaultPlan {
     Burst(u64, u64),
     /// the listed calls fail (strictly increasing)
     Scattered(Vec<u64>),
+    /// domain failure: every call whose time argument is greater than the threshold fails
+    /// (threshold stored as the bits of an f64)
+    TimeAbove(u64),
+    /// domain failure: every call whose state has a component of modulus greater than the
+    /// threshold fails (bits of an f64)
+    NormAbove(u64),
+    /// domain failure: every call whose time argument lies strictly inside (a, b) fails
+    TimeWindow(u64, u64),
 }
 
 impl FaultPlan {
-    pub fn fails(&self, call: u64) -> bool {
+    /// `t` is the time argument of the call, `ymax` the largest modulus of a state component.
+    pub fn fails(&self, call: u64, t: f64, ymax: f64) -> bool {
         match self {
+            FaultPlan::TimeAbove(b) => t > f64::from_bits(*b),
+            FaultPlan::NormAbove(b) => ymax > f64::from_bits(*b),
+            FaultPlan::TimeWindow(a, b) => t > f64::from_bits(*a) && t < f64::from_bits(*b),
             FaultPlan::None => false,
             FaultPlan::Transient(k) => call == *k,
             FaultPlan::Permanent(k) => call >= *k,
@@ -293,7 +317,12 @@ impl FaultPlan {
             FaultPlan::None => None,
             FaultPlan::Transient(k) | FaultPlan::Permanent(k) | FaultPlan::Burst(k, _) => Some(*k),
             FaultPlan::Scattered(ks) => ks.first().copied(),
+            FaultPlan::TimeAbove(_) | FaultPlan::NormAbove(_) | FaultPlan::TimeWindow(_, _) => None,
         }
+    }
+    /// Does the plan depend on the arguments of the call rather than on its number?
+    pub fn is_domain(&self) -> bool {
+        matches!(self, FaultPlan::TimeAbove(_) | FaultPlan::NormAbove(_) | FaultPlan::TimeWindow(_, _))
     }
     pub fn kind_name(&self) -> &'static str {
         match self {
@@ -302,6 +331,9 @@ impl FaultPlan {
             FaultPlan::Permanent(_) => "permanent",
             FaultPlan::Burst(_, _) => "burst",
             FaultPlan::Scattered(_) => "scattered",
+            FaultPlan::TimeAbove(_) => "domain_time_above",
+            FaultPlan::NormAbove(_) => "domain_state_above",
+            FaultPlan::TimeWindow(_, _) => "domain_time_window",
         }
     }
     pub fn to_json(&self) -> J {
@@ -315,12 +347,18 @@ impl FaultPlan {
                 v.extend(ks.iter().map(|k| J::U(*k)));
                 J::A(v)
             }
+            FaultPlan::TimeAbove(b) => J::A(vec![J::s("domain_time_above"), J::F(f64::from_bits(*b))]),
+            FaultPlan::NormAbove(b) => J::A(vec![J::s("domain_state_above"), J::F(f64::from_bits(*b))]),
+            FaultPlan::TimeWindow(a, b) => {
+                J::A(vec![J::s("domain_time_window"), J::F(f64::from_bits(*a)), J::F(f64::from_bits(*b))])
+            }
         }
     }
     pub fn from_json(j: &J) -> Result<FaultPlan, String> {
         let a = j.as_arr().ok_or("plan: not an array")?;
         let tag = a.first().and_then(|x| x.as_str()).ok_or("plan: no tag")?;
         let n = |i: usize| a.get(i).and_then(|x| x.as_u64()).ok_or("plan: missing number");
+        let f = |i: usize| a.get(i).and_then(|x| x.as_f64()).ok_or("plan: missing threshold");
         Ok(match tag {
             "none" => FaultPlan::None,
             "transient" => FaultPlan::Transient(n(1)?),
@@ -333,6 +371,9 @@ impl FaultPlan {
                 }
                 FaultPlan::Scattered(ks)
             }
+            "domain_time_above" => FaultPlan::TimeAbove(f(1)?.to_bits()),
+            "domain_state_above" => FaultPlan::NormAbove(f(1)?.to_bits()),
+            "domain_time_window" => FaultPlan::TimeWindow(f(1)?.to_bits(), f(2)?.to_bits()),
             _ => return Err(format!("unknown plan {}", tag)),
         })
     }
